@@ -4,6 +4,7 @@ from mir import Origins, Origin, O, strip, short_span, const_int
 from dtable import (Walker, Unrecognised, pm, events_only, show, mentions, instrumented_body, resolve_upvars, param_index)
 from e1 import field_accesses
 
+THOROUGH_CONFIGS = ("release", "arbitrary")
 LEVEL = "proof"
 MB = "stun_types::message::MessageBuilder::<'a>::"
 MB_V = "stun_types::message::MessageBuilder::MessageBuilder"
